@@ -19,7 +19,8 @@ From GV Require Import Base.Outcome Base.AMap Model.GState Model.Creation Model.
 From GV Require Import Spec.AGraph Spec.History Spec.ShortestPathDef Spec.ShortestPathCheck Spec.ShortestPathRel.
 From GV Require Import Proofs.AMapOk Proofs.WFDefs Proofs.WFNode Proofs.WFAdj Proofs.WFEdge Proofs.HistoryOk
      Proofs.AdjOk Proofs.QueryOk.
-From GV Require Import Proofs.ShortestPathOk Proofs.DijkstraLoopOk Proofs.DijkstraModelOk Proofs.DijkstraNamesOk.
+From GV Require Import Proofs.ShortestPathOk Proofs.DijkstraLoopOk Proofs.DijkstraPathsOk Proofs.DijkstraTotalOk
+     Proofs.DijkstraNoErrOk Proofs.DijkstraModelOk Proofs.DijkstraNamesOk Proofs.DijkstraEntryOk Proofs.InvolvingOk.
 Import ListNotations.
 
 (* ------------------------------------------------------------------ adjacency-list spec = relational spec *)
@@ -418,5 +419,297 @@ Section DijkstraWF.
   Proof.
     intros W. destruct (traversal_graph_is_edge_store g weighted W) as [Hn Harc].
     apply result_ok_rel; assumption.
+  Qed.
+
+  (* ================================================================ end-to-end: every WF graph *)
+  Notation n_of := number_of_nodes.
+
+  (* node-index paths and their node-name form *)
+  Definition names_of (g : gstate) (p : list nat) (p' : list T) : Prop :=
+    Forall2 (fun k x => name_at g k = Some x) p p'.
+  Definition info_names (g : gstate) (i : spinfo nat) (i' : spinfo T) : Prop :=
+    sp_distance i' = sp_distance i /\ Forall2 (names_of g) (sp_paths i) (sp_paths i').
+
+  Lemma Forall2_imp {X Y} (R1 R2 : X -> Y -> Prop) :
+    (forall a b, R1 a b -> R2 a b) -> forall l l', Forall2 R1 l l' -> Forall2 R2 l l'.
+  Proof. intros H l l' F. induction F; constructor; auto. Qed.
+
+  Lemma Forall2_in_l {X Y} (R : X -> Y -> Prop) l l' x :
+    Forall2 R l l' -> In x l -> exists y, In y l' /\ R x y.
+  Proof.
+    intros F. induction F as [|a b l l' Hab F IH]; intros Hin; [destruct Hin|].
+    destruct Hin as [<- | Hin]; [exists b; split; [left; reflexivity | exact Hab]|].
+    destruct (IH Hin) as [y [Hy Hr]]. exists y. split; [right; exact Hy | exact Hr].
+  Qed.
+
+  Lemma Forall2_in_r {X Y} (R : X -> Y -> Prop) l l' y :
+    Forall2 R l l' -> In y l' -> exists x, In x l /\ R x y.
+  Proof.
+    intros F. induction F as [|a b l l' Hab F IH]; intros Hin; [destruct Hin|].
+    destruct Hin as [<- | Hin]; [exists a; split; [left; reflexivity | exact Hab]|].
+    destruct (IH Hin) as [x [Hx Hr]]. exists x. split; [right; exact Hx | exact Hr].
+  Qed.
+
+  Lemma tr_info_names (g : gstate) i i' : WF g -> tr_info g i i' <-> info_names g i i'.
+  Proof.
+    intros W. unfold tr_info, info_names, names_of. split; intros [H1 H2]; (split; [exact H1|]);
+      (eapply Forall2_imp; [|exact H2]); intros p p' Hp; (eapply Forall2_imp; [|exact Hp]); intros k x Hk; cbn beta in *.
+    - rewrite <- (name_name_at g k W). exact Hk.
+    - rewrite (name_name_at g k W). exact Hk.
+  Qed.
+
+  (* the hypotheses of the package-A theorems, from WF + the two premises of the property *)
+  Lemma wf_search_hypotheses (g : gstate) weighted :
+    WF g -> small_adj g -> (weighted = true -> weights_nonneg g) ->
+    wf_adj g /\ names_wf teqb g /\ nonneg (wgraph_of weighted (successors_vec g)).
+  Proof.
+    intros W Hs Hw. split; [apply WF_wf_adj; assumption|]. split; [apply WF_names_wf; exact W|].
+    apply WF_nonneg; assumption.
+  Qed.
+
+  (* ---- index level ---- *)
+  Theorem wf_dijkstra_total (g : gstate) weighted src target cutoff fo wp :
+    WF g -> small_adj g -> (weighted = true -> weights_nonneg g) ->
+    cutoff_exceeded cutoff 0 = false -> (src < n_of g)%nat ->
+    exists r, dijkstra g weighted src target cutoff fo wp = Ok r /\
+              a_result_ok (edge_arc g weighted) (n_of g) src target cutoff fo wp (answer_of r).
+  Proof.
+    intros W Hs Hw Hc Hsrc. destruct (wf_search_hypotheses g weighted W Hs Hw) as [Ha [_ Hnn]].
+    destruct (model_dijkstra_total T A g weighted src target cutoff fo wp Ha Hnn Hc Hsrc) as [r [Hr Hok]].
+    exists r. split; [exact Hr|]. apply (result_ok_edge_store g weighted _ _ _ _ _ _ W). exact Hok.
+  Qed.
+
+  (* the per-source function all three entry points call (fast path or full algorithm) *)
+  Theorem wf_run_from_index (g : gstate) weighted si (target : option T) ti cutoff fo wp :
+    WF g -> small_adj g -> (weighted = true -> weights_nonneg g) ->
+    (si < n_of g)%nat -> (target = None <-> ti = None) -> cutoff_exceeded cutoff 0 = false ->
+    exists r, run_from_index g weighted si target ti cutoff fo wp = Ok r /\
+              a_result_ok (edge_arc g weighted) (n_of g) si ti cutoff fo wp (answer_of r) /\
+              forall k i, In (k, i) r -> (k < n_of g)%nat.
+  Proof.
+    intros W Hs Hw Hsi Hti Hc. destruct (wf_search_hypotheses g weighted W Hs Hw) as [Ha [_ Hnn]].
+    destruct (run_from_index_ok g weighted Ha Hnn si target ti cutoff fo wp Hsi Hti Hc) as [r [Hr [Hok Hk]]].
+    exists r. split; [exact Hr|]. split; [|exact Hk]. apply (result_ok_edge_store g weighted _ _ _ _ _ _ W). exact Hok.
+  Qed.
+
+  (* ---- single_source on node names ---- *)
+  Theorem wf_single_source (g : gstate) weighted source target cutoff fo wp si :
+    WF g -> small_adj g -> (weighted = true -> weights_nonneg g) ->
+    name_at g si = Some source ->
+    (forall t, target = Some t -> In t (names g)) ->
+    cutoff_exceeded cutoff 0 = false ->
+    exists m ti r,
+      single_source teqb g weighted source target cutoff fo wp = Ok m /\
+      match target with Some t => exists i, name_at g i = Some t /\ ti = Some i | None => ti = None end /\
+      a_result_ok (edge_arc g weighted) (n_of g) si ti cutoff fo wp (answer_of r) /\
+      (forall k i, In (k, i) r -> exists x i', name_at g k = Some x /\ info_names g i i' /\ lookup teqb x m = Some i') /\
+      (forall x i', lookup teqb x m = Some i' -> exists k i, In (k, i) r /\ name_at g k = Some x /\ info_names g i i').
+  Proof.
+    intros W Hs Hw Hsrc Ht Hc. destruct (wf_search_hypotheses g weighted W Hs Hw) as [Ha [Hnm Hnn]].
+    assert (Hl : lookup teqb source (nodes_map g) = Some si) by (apply (lookup_name_at g source si W); exact Hsrc).
+    assert (Ht' : forall t, target = Some t -> exists i, lookup teqb t (nodes_map g) = Some i).
+    { intros t E. apply (lookup_names g t W). apply Ht. exact E. }
+    destruct (single_source_names_ok teqb teqb_spec g weighted Ha Hnm Hnn source target cutoff fo wp si Hl Ht' Hc)
+      as [m [ti [r [Hm [Hti [Hok [A1 A2]]]]]]].
+    exists m, ti, r. split; [exact Hm|]. split; [|split; [|split]].
+    - destruct target as [t|]; [|exact Hti]. destruct Hti as [i [Hi ->]]. exists i.
+      split; [apply (lookup_name_at g t i W); exact Hi | reflexivity].
+    - apply (result_ok_edge_store g weighted _ _ _ _ _ _ W). exact Hok.
+    - intros k i Hin. destruct (A1 k i Hin) as [x [i' [Hx [Htr Hlk]]]]. exists x, i'.
+      split; [rewrite <- (name_name_at g k W); exact Hx|]. split; [apply (tr_info_names g i i' W); exact Htr | exact Hlk].
+    - intros x i' Hlk. destruct (A2 x i' Hlk) as [k [i [Hin [Hx Htr]]]]. exists k, i.
+      split; [exact Hin|]. split; [rewrite <- (name_name_at g k W); exact Hx | apply (tr_info_names g i i' W); exact Htr].
+  Qed.
+
+  (* ---- collection into a map keyed by source name ---- *)
+  Lemma collect_map_spec {V} (l : list (T * V)) :
+    (forall s m m', In (s, m) l -> In (s, m') l -> m = m') ->
+    forall s m, lookup teqb s (collect_map teqb l) = Some m <-> In (s, m) l.
+  Proof.
+    unfold collect_map. induction l as [|[k v] l IH] using rev_ind; intros Hf s m.
+    - cbn. split; [discriminate | intros []].
+    - rewrite fold_left_app. cbn [fold_left fst snd]. rewrite (AMapOk.lookup_insert teqb teqb_spec).
+      assert (Hf' : forall s m m', In (s, m) l -> In (s, m') l -> m = m').
+      { intros s0 m0 m0' H1 H2. apply (Hf s0); apply in_or_app; left; assumption. }
+      destruct (teqb s k) eqn:E.
+      + apply teqb_spec in E. subst k. split.
+        * intros H. inversion H; subst. apply in_or_app. right. left. reflexivity.
+        * intros Hin. f_equal. apply (Hf s); [apply in_or_app; right; left; reflexivity | exact Hin].
+      + rewrite (IH Hf'). rewrite in_app_iff. split; [auto|]. intros [H|[H|[]]]; [exact H|].
+        inversion H; subst. rewrite (proj2 (teqb_spec s s) eq_refl) in E. discriminate.
+  Qed.
+
+  Lemma in_names_iff (g : gstate) x : in_names teqb g x = true <-> In x (names g).
+  Proof.
+    unfold in_names, WFDefs.names. rewrite existsb_exists, in_map_iff.
+    split; intros [nd [H1 H2]]; exists nd; [split; [apply teqb_spec; exact H2 | exact H1] | split; [exact H2 | apply teqb_spec; exact H1]].
+  Qed.
+
+  (* a list of per-key answers [l] related to a list of keys [ks] by "the entry's name
+     is the key's name and its value is single_source of that name" collects into the map
+     name |-> single_source name *)
+  Lemma collect_single_source {K} (g : gstate) weighted target cutoff fo wp (key : K -> T -> Prop)
+        (ks : list K) (l : list (T * list (T * spinfo T))) :
+    (forall k a b, key k a -> key k b -> a = b) ->
+    Forall2 (fun k sm => key k (fst sm) /\ single_source teqb g weighted (fst sm) target cutoff fo wp = Ok (snd sm)) ks l ->
+    forall s m, lookup teqb s (collect_map teqb l) = Some m <->
+                (exists k, In k ks /\ key k s) /\ single_source teqb g weighted s target cutoff fo wp = Ok m.
+  Proof.
+    intros Hfun F s m. rewrite collect_map_spec.
+    - split.
+      + intros Hin. destruct (Forall2_in_r _ _ _ _ F Hin) as [k [Hk [Hkey Hss]]]. cbn [fst snd] in *.
+        split; [exists k; auto | exact Hss].
+      + intros [[k [Hk Hkey]] Hss]. destruct (Forall2_in_l _ _ _ _ F Hk) as [[s' m'] [Hin [Hkey' Hss']]].
+        cbn [fst snd] in *. assert (s' = s) by (eapply Hfun; eauto). subst s'.
+        assert (m' = m) by congruence. subst m'. exact Hin.
+    - intros s0 m0 m0' H1 H2.
+      destruct (Forall2_in_r _ _ _ _ F H1) as [k1 [_ [_ Hs1]]]. destruct (Forall2_in_r _ _ _ _ F H2) as [k2 [_ [_ Hs2]]].
+      cbn [fst snd] in *. congruence.
+  Qed.
+
+  (* ---- multi_source ---- *)
+  Theorem wf_multi_source threads (g : gstate) weighted sources target cutoff fo wp :
+    WF g -> small_adj g -> (weighted = true -> weights_nonneg g) ->
+    (forall s, In s sources -> In s (names g)) ->
+    (forall t, target = Some t -> In t (names g)) ->
+    cutoff_exceeded cutoff 0 = false ->
+    exists mm,
+      multi_source teqb threads g weighted sources target cutoff fo wp = Ok mm /\
+      forall s m, lookup teqb s mm = Some m <->
+                  In s sources /\ single_source teqb g weighted s target cutoff fo wp = Ok m.
+  Proof.
+    intros W Hs Hw Hsrc Ht Hc. unfold multi_source.
+    rewrite (has_nodes_spec teqb tltb teqb_spec g sources W).
+    assert (Hall : forallb (in_names teqb g) sources = true).
+    { apply forallb_forall. intros x Hx. apply in_names_iff. apply Hsrc. exact Hx. }
+    rewrite Hall. cbn [bind negb].
+    assert (Htb : match target with Some t => has_node teqb g t | None => Ok true end = Ok true).
+    { destruct target as [t|]; [|reflexivity]. rewrite (has_node_spec teqb tltb teqb_spec g t W). f_equal.
+      apply (in_names_iff g t). apply Ht. reflexivity. }
+    rewrite Htb. cbn [bind negb].
+    match goal with |- context [omapM ?f sources] => set (one := f) end.
+    assert (Hl : exists l, omapM one sources = Ok l /\
+                 Forall2 (fun k sm => k = fst sm /\ single_source teqb g weighted (fst sm) target cutoff fo wp = Ok (snd sm)) sources l).
+    { clear Hall. induction sources as [|s ss IH]; [exists []; split; [reflexivity | constructor]|].
+      destruct IH as [l [Hl F]]; [intros x Hx; apply Hsrc; right; exact Hx|].
+      assert (Hsn : In s (names g)) by (apply Hsrc; left; reflexivity). apply name_at_In in Hsn. destruct Hsn as [si Hsi].
+      destruct (wf_single_source g weighted s target cutoff fo wp si W Hs Hw Hsi Ht Hc) as [m [_ [_ [Hm _]]]].
+      exists ((s, m) :: l). split; [|constructor; [split; [reflexivity | exact Hm] | exact F]].
+      cbn [omapM]. unfold one at 1. rewrite Hm. cbn [unwrap_result bind]. rewrite Hl. reflexivity. }
+    destruct Hl as [l [Hl F]].
+    assert (Hif : (if parallel g threads then omapM one sources else omapM one sources) = Ok l)
+      by (destruct (parallel g threads); exact Hl).
+    rewrite Hif. cbn [bind]. exists (collect_map teqb l). split; [reflexivity|]. intros s m.
+    rewrite (collect_single_source g weighted target cutoff fo wp (fun k x => k = x) sources l); [| |exact F].
+    - split; [intros [[k [Hk ->]] H]; auto | intros [H1 H2]; split; [exists s; auto | exact H2]].
+    - intros k a b -> ->. reflexivity.
+  Qed.
+
+  (* ---- all_pairs ---- *)
+  Lemma per_index_single_source (g : gstate) weighted (target : option T) ti cutoff fo wp i :
+    WF g -> small_adj g -> (weighted = true -> weights_nonneg g) ->
+    match target with Some t => exists j, lookup teqb t (nodes_map g) = Some j /\ ti = Some j | None => ti = None end ->
+    cutoff_exceeded cutoff 0 = false -> (i < n_of g)%nat ->
+    exists x r m, name_at g i = Some x /\
+      run_from_index g weighted i target ti cutoff fo wp = Ok r /\
+      convert_shortest_path_info_vec_to_t_map teqb g r = Ok m /\
+      single_source teqb g weighted x target cutoff fo wp = Ok m.
+  Proof.
+    intros W Hs Hw Hti Hc Hi. destruct (name_at_some g i Hi) as [x Hx].
+    assert (Ht : forall t, target = Some t -> In t (names g)).
+    { intros t ->. destruct Hti as [j [Hj _]]. apply name_at_In. exists j. apply (lookup_name_at g t j W). exact Hj. }
+    destruct (wf_single_source g weighted x target cutoff fo wp i W Hs Hw Hx Ht Hc) as [m [_ [_ [Hm _]]]].
+    destruct (single_source_unfold teqb g weighted x target cutoff fo wp m Hm) as [si [ti' [r [Hsi [Hti' [Hr Hcv]]]]]].
+    assert (si = i).
+    { unfold get_node_index in Hsi. rewrite (proj2 (lookup_name_at g x i W) Hx) in Hsi. inversion Hsi. reflexivity. }
+    subst si.
+    assert (ti' = ti).
+    { destruct target as [t|]; [|congruence]. destruct Hti as [j [Hj ->]]. destruct Hti' as [j' [Hj' ->]].
+      unfold get_node_index in Hj'. rewrite Hj in Hj'. inversion Hj'. reflexivity. }
+    subst ti'. exists x, r, m. auto.
+  Qed.
+
+  Theorem wf_all_pairs threads (g : gstate) weighted target cutoff fo wp :
+    WF g -> small_adj g -> (weighted = true -> weights_nonneg g) ->
+    (weighted = true -> edges_have_weight g = true) ->
+    (forall t, target = Some t -> In t (names g)) ->
+    cutoff_exceeded cutoff 0 = false ->
+    exists mm,
+      all_pairs teqb threads g weighted target cutoff fo wp = Ok mm /\
+      forall s m, lookup teqb s mm = Some m <->
+                  In s (names g) /\ single_source teqb g weighted s target cutoff fo wp = Ok m.
+  Proof.
+    intros W Hs Hw Hew Ht Hc. unfold all_pairs.
+    assert (H1 : (if weighted then ensure_weighted g else Ok tt) = Ok tt).
+    { destruct weighted; [|reflexivity]. unfold ensure_weighted. rewrite (Hew eq_refl). reflexivity. }
+    rewrite H1. cbn [bind].
+    assert (Hti : exists ti, match target with
+                             | Some t => exists j, lookup teqb t (nodes_map g) = Some j /\ ti = Some j
+                             | None => ti = None end).
+    { destruct target as [t|]; [|exists None; reflexivity]. destruct (lookup_names g t W (Ht t eq_refl)) as [j Hj].
+      exists (Some j), j. auto. }
+    destruct Hti as [ti Hti].
+    assert (H2 : match target with Some t => do _ <- get_node_index teqb g t; Ok tt | None => Ok tt end = Ok tt).
+    { destruct target as [t|]; [|reflexivity]. destruct Hti as [j [Hj _]]. unfold get_node_index. rewrite Hj. reflexivity. }
+    rewrite H2. cbn [bind].
+    assert (H3 : match target with
+                 | Some t => do i <- unwrap_result "dijkstra.rs:153" (get_node_index teqb g t); Ok (Some i)
+                 | None => Ok None end = Ok ti).
+    { destruct target as [t|]; [|congruence]. destruct Hti as [j [Hj ->]]. unfold get_node_index. rewrite Hj. reflexivity. }
+    unfold all_pairs_iter. rewrite H3. cbn [bind].
+    match goal with |- context [omapM ?f (seq 0 (n_of g))] => set (F1 := f) end.
+    set (F2 := fun sv : nat * list (nat * spinfo nat) =>
+                 do source_name <- name_of_index "dijkstra.rs:132" g (fst sv);
+                 do m <- convert_shortest_path_info_vec_to_t_map teqb g (snd sv);
+                 Ok (source_name, m)).
+    assert (Hl : forall ks, (forall k, In k ks -> (k < n_of g)%nat) ->
+              exists vecs l, omapM F1 ks = Ok vecs /\ omapM F2 vecs = Ok l /\
+                Forall2 (fun k sm => name_at g k = Some (fst sm) /\
+                                     single_source teqb g weighted (fst sm) target cutoff fo wp = Ok (snd sm)) ks l).
+    { induction ks as [|k ks IH]; intros Hks; [exists [], []; split; [reflexivity|]; split; [reflexivity | constructor]|].
+      destruct IH as [vecs [l [Hv [Hl F]]]]; [intros k' Hk'; apply Hks; right; exact Hk'|].
+      destruct (per_index_single_source g weighted target ti cutoff fo wp k W Hs Hw Hti Hc (Hks k (or_introl eq_refl)))
+        as [x [r [m [Hx [Hr [Hcv Hm]]]]]].
+      exists ((k, r) :: vecs), ((x, m) :: l). split; [|split].
+      - cbn [omapM]. unfold F1 at 1. rewrite Hr. cbn [unwrap_result bind]. rewrite Hv. reflexivity.
+      - cbn [omapM]. unfold F2 at 1. cbn [fst snd].
+        rewrite (proj2 (name_of_index_name g "dijkstra.rs:132" k x)) by (rewrite (name_name_at g k W); exact Hx).
+        cbn [bind]. rewrite Hcv. cbn [bind]. rewrite Hl. reflexivity.
+      - constructor; [split; [exact Hx | exact Hm] | exact F]. }
+    destruct (Hl (seq 0 (n_of g))) as [vecs [l [Hv [Hll F]]]]; [intros k Hk; apply in_seq in Hk; lia|].
+    assert (Hif : (if parallel g threads then omapM F1 (seq 0 (n_of g)) else omapM F1 (seq 0 (n_of g))) = Ok vecs)
+      by (destruct (parallel g threads); exact Hv).
+    rewrite Hif. cbn [bind]. rewrite Hll. cbn [bind]. exists (collect_map teqb l). split; [reflexivity|]. intros s m.
+    rewrite (collect_single_source g weighted target cutoff fo wp (fun k x => name_at g k = Some x) (seq 0 (n_of g)) l); [| |exact F].
+    - split; intros [H H']; (split; [|exact H']).
+      + destruct H as [k [_ Hk]]. apply name_at_In. exists k. exact Hk.
+      + apply name_at_In in H. destruct H as [k Hk]. exists k. split; [|exact Hk].
+        apply in_seq. pose proof (name_at_lt_n g k s Hk). lia.
+    - intros k a b Ha Hb. congruence.
+  Qed.
+
+  Lemma all_pairs_unweighted_store threads (g : gstate) target cutoff fo wp :
+    edges_have_weight g = false ->
+    all_pairs teqb threads g true target cutoff fo wp = Err EdgeWeightNotSpecified.
+  Proof. intros H. unfold all_pairs, ensure_weighted. rewrite H. reflexivity. Qed.
+
+  (* ---- get_all_shortest_paths_involving ---- *)
+  Theorem wf_involving threads (g : gstate) (x : T) weighted :
+    WF g -> small_adj g -> (weighted = true -> weights_nonneg g) ->
+    (weighted = true -> edges_have_weight g = true) ->
+    exists pairs l,
+      all_pairs teqb threads g weighted None None false true = Ok pairs /\
+      get_all_shortest_paths_involving teqb threads g x weighted = Ok l /\
+      forall spi, In spi l <->
+        (exists s t, exists m, In (s, m) pairs /\ In (t, spi) m) /\
+        exists p, In p (sp_paths spi) /\ inside x p.
+  Proof.
+    intros W Hs Hw Hew.
+    destruct (wf_all_pairs threads g weighted None None false true W Hs Hw Hew) as [pairs [Hp _]];
+      [discriminate | reflexivity|].
+    assert (Hi : exists l, get_all_shortest_paths_involving teqb threads g x weighted = Ok l).
+    { unfold get_all_shortest_paths_involving. rewrite Hp. eauto. }
+    destruct Hi as [l Hl]. exists pairs, l. split; [exact Hp|]. split; [exact Hl|].
+    apply (involving_spec teqb teqb_spec threads g x weighted l pairs Hp Hl).
   Qed.
 End DijkstraWF.
